@@ -596,11 +596,7 @@ func (ev *REval) builtin(name string, args []RV, yh *yielder) rres {
 		for i := 0; i < n; i++ {
 			v := RI(i)
 			if name == "elems" {
-				if x.K == rStr {
-					v = RS(x.S[i : i+1])
-				} else {
-					v = x.A[i]
-				}
+				v = rindex(x, []RV{RI(i)}).v // elems(x) yields x[i]
 			}
 			if r, stop := yield(v); stop {
 				return r
